@@ -1,7 +1,7 @@
 (* Z mod p (p prime) with the equality "congruent mod p" as an integral domain for [nsatz]
    (type classes of Coq.nsatz: Ring_ops, Ring, Cring, Integral_domain), on top of build-ec's field
    structure EC/ECAffineProofs.v.  Used by SM2/ECAssoc*.v (associativity of the affine law). *)
-From Coq Require Import ZArith Znumtheory Lia Setoid Morphisms Nsatz.
+From Coq Require Import ZArith Znumtheory Lia Setoid Morphisms NsatzTactic.
 From GmsmVerif Require Import EC.ECAffine EC.ECAffineProofs.
 Open Scope Z_scope.
 
